@@ -199,7 +199,12 @@ func runUciScript(kind string, seed int64, steps []string) string {
 					continue
 				}
 			}
-			emit("sent")
+			if strings.HasPrefix(st, "> go") {
+				// the answer may come at once (book, mate, no legal move): leave it to the step that waits for it
+				trace = append(trace, "sent")
+			} else {
+				emit("sent")
+			}
 		case st == "sync":
 			// isready must be answered by readyok
 			ok := false
